@@ -8,7 +8,7 @@ PROP = {'id': 'C03',
                'HpcSubmitter._update_completed_jobs',
                'HpcSubmitter._cancel_job',
                'JobQueue._check_completions'],
- 'native': ['HpcSubmitter.run', 'JobSubmitter._handle_completion'],
+ 'native': ['HpcSubmitter.run', 'JobSubmitter._handle_completion', 'JobQueue._check_completions', 'JobQueue.process_queue'],
  'lemmas': ['lemma_c03_unique_classification'],
  'records': ['Result', 'JobSubmitter'],
  'min_obligations': 600,
